@@ -43,6 +43,15 @@ def paired(rep, thorough):
             cfg = NG.gen_model(random.Random(seed), ndates=5 if idx % 3 == 2 else 4, polset=ps, size=size,
                                opts={"polseed": k, "overrides": with_ov, "arc_mix": 0.5 if idx % 3 == 2 else 0, "stress": idx % 3 == 2})
             mixed += int(idx % 3 == 2 and k == 0)
+            if idx % 3 == 2:
+                # ephemeral streams into travel-time arcs: on a day without flow the catchment pushes an empty flux while
+                # yesterday's water is still in the arc (the same arcs in every configuration: chosen from the seed)
+                rq = random.Random(seed + 1)
+                kinds = {nd["name"]: NG.cls_of(nd) for nd in cfg["nodes"]}
+                for a in cfg["arcs"]:
+                    if kinds[a["in_port"]] == "Catchment" and a["type_"] == "Arc" and rq.random() < 0.6:
+                        a["type_"] = "QueueArc"
+                        a["number_of_timesteps"] = rq.choice([1, 1, 2])
             if strip and k == 1:
                 # "different treatment parameters": this configuration leaves the pollutant treatment of every works to the
                 # library defaults (the hydraulic shares percent_solids and liquor volume stay as declared)
